@@ -30,7 +30,9 @@
         `if language == baseLanguage { inBase = .. } else { l.addTranslation(language, ..) }`.
    flows/definition/migrations Migrate13_5  13_x.go:126   per language: translation of that language only.
    flows/definition/migrations migrate     base.go:81   collected versions, sort.SliceStable by LessThan; the early
-        `return data, nil` between loop and sort does not return the slice.
+        `return data, nil` between loop and sort does not return the slice (descriptor [EAppend SortNone]); the same loop
+        with the sort recognised, e.g. after the collection moved into a helper that sorts before it returns, has
+        descriptor [EAppend SortBy]: both are listed, the reason (sort key injective on the registered versions) is the same.
    services/webhooks service.Call          service.go:41   default headers from the engine configuration.
    utils/jsonpath visit                    path.go:101   `k == selector || selector == "*"`, typed[k] = tx(..). *)
 From Coq Require Import List String.
@@ -38,28 +40,29 @@ From Verif Require Import model.MapOrder.
 Import ListNotations.
 Open Scope string_scope.
 
-Definition x (pkg func : string) (ord : nat) (effs : list effect) (r : reason) : exception_entry :=
-  {| x_pkg := pkg; x_func := func; x_ord := ord; x_effects := effs; x_reason := r |}.
+Definition x (pkg func : string) (ord : nat) (maptype : string) (effs : list effect) (r : reason) : exception_entry :=
+  {| x_pkg := pkg; x_func := func; x_ord := ord; x_maptype := maptype; x_effects := effs; x_reason := r |}.
 
 Definition map_range_exceptions : list exception_entry := [
-  x "excellent/functions" "init" 0 [ECallStmt] RRegistration;
-  x "flows/routers/cases" "init" 0 [ECallStmt] RRegistration;
-  x "excellent/types" "XObject.Get" 0 [EAssignOuter; EFlagSet; ELoopCarried] RMinMatch;
-  x "excellent/types" "XObject.initialize" 0 [EAssignOuter; EMapWriteKey] RKeyGuardedAssign;
-  x "flows" "Contact.MarshalJSON" 0 [EMapWriteOther] RValueKeyedByOwnKey;
-  x "flows/definition" "flowAssets.FindByName" 0 [EReturnValue] RFirstMatchUnique;
-  x "flows/definition" "languageTranslation.Enumerate" 0 [ECallback; ENestedMapRange] RNoCaller;
-  x "flows/definition" "languageTranslation.Enumerate" 1 [ECallback] RNoCaller;
-  x "flows/definition/legacy" "TransformTranslations" 0 [EAssignOuter; EMapWriteKey] RKeyPartitioned;
-  x "flows/definition/legacy" "migrateRuleSet" 0 [ELoopCarried; EMapWriteOther; EReturnErr] RConflictChecked;
-  x "flows/definition/legacy" "migratedLocalization.addTranslationMap" 0 [EAssignOuter; ECallImpure; ECallStmt] RKeyGuardedAssign;
-  x "flows/definition/legacy" "migratedLocalization.addTranslationMultiMap" 0 [EAssignOuter; ECallImpure; ECallStmt] RKeyGuardedAssign;
-  x "flows" "Results.Context" 0 [ECallImpure; EMapWriteKey] RPureCalleeReviewed;
-  x "flows" "FieldValues.Context" 0 [EAppend SortTotal; ECallImpure; EMapWriteKey] RPureCalleeReviewed;
-  x "flows/definition/migrations" "Migrate13_5" 0 [ECallStmt] RKeyPartitioned;
-  x "flows/definition/migrations" "migrate" 0 [EAppend SortNone] RStableSortInjective;
-  x "services/webhooks" "service.Call" 0 [ECallStmt] RHeaderDefaults;
-  x "utils/jsonpath" "visit" 0 [ECallStmt; ECallback; EMapWriteKey] RKeySelected
+  x "excellent/functions" "init" 0 "map[string]excellent/types.XFunc" [ECallStmt] RRegistration;
+  x "flows/routers/cases" "init" 0 "map[string]excellent/types.XFunc" [ECallStmt] RRegistration;
+  x "excellent/types" "XObject.Get" 0 "map[string]excellent/types.XValue" [EAssignOuter; EFlagSet; ELoopCarried] RMinMatch;
+  x "excellent/types" "XObject.initialize" 0 "map[string]excellent/types.XValue" [EAssignOuter; EMapWriteKey] RKeyGuardedAssign;
+  x "flows" "Contact.MarshalJSON" 0 "flows.FieldValues" [EMapWriteOther] RValueKeyedByOwnKey;
+  x "flows/definition" "flowAssets.FindByName" 0 "map[assets.FlowUUID]flows.Flow" [EReturnValue] RFirstMatchUnique;
+  x "flows/definition" "languageTranslation.Enumerate" 0 "flows/definition.languageTranslation" [ECallback; ENestedMapRange] RNoCaller;
+  x "flows/definition" "languageTranslation.Enumerate" 1 "flows/definition.itemTranslation" [ECallback] RNoCaller;
+  x "flows/definition/legacy" "TransformTranslations" 0 "flows/definition/legacy.Translations" [EAssignOuter; EMapWriteKey] RKeyPartitioned;
+  x "flows/definition/legacy" "migrateRuleSet" 0 "map[string]struct{CurrencyCode string ""json:\""currency_code\""""; Amount github.com/shopspring/decimal.Decimal ""json:\""amount\""""}" [ELoopCarried; EMapWriteOther; EReturnErr] RConflictChecked;
+  x "flows/definition/legacy" "migratedLocalization.addTranslationMap" 0 "flows/definition/legacy.Translations" [EAssignOuter; ECallImpure; ECallStmt] RKeyGuardedAssign;
+  x "flows/definition/legacy" "migratedLocalization.addTranslationMultiMap" 0 "map[gocommon/i18n.Language][]string" [EAssignOuter; ECallImpure; ECallStmt] RKeyGuardedAssign;
+  x "flows" "Results.Context" 0 "flows.Results" [ECallImpure; EMapWriteKey] RPureCalleeReviewed;
+  x "flows" "FieldValues.Context" 0 "flows.FieldValues" [EAppend SortTotal; ECallImpure; EMapWriteKey] RPureCalleeReviewed;
+  x "flows/definition/migrations" "Migrate13_5" 0 "map[gocommon/i18n.Language][]string" [ECallStmt] RKeyPartitioned;
+  x "flows/definition/migrations" "migrate" 0 "map[*github.com/Masterminds/semver.Version]flows/definition/migrations.MigrationFunc" [EAppend SortNone] RStableSortInjective;
+  x "flows/definition/migrations" "migrate" 0 "map[*github.com/Masterminds/semver.Version]flows/definition/migrations.MigrationFunc" [EAppend SortBy] RStableSortInjective;
+  x "services/webhooks" "service.Call" 0 "map[string]string" [ECallStmt] RHeaderDefaults;
+  x "utils/jsonpath" "visit" 0 "map[string]any" [ECallStmt; ECallback; EMapWriteKey] RKeySelected
 ].
 
 (* reviewed uses of ambient process state in library code (package, function, callee): none today *)
